@@ -1,4 +1,5 @@
 import sys
+import threading
 import time
 
 from . import base_socket
@@ -9,6 +10,11 @@ from . import payload
 
 class Socket(base_socket.BaseSocket):
     """An Engine.IO socket."""
+    def __init__(self, server, sid):
+        super().__init__(server, sid)
+        # of the threads that race to close the socket only one may do it
+        self._close_lock = threading.Lock()
+
     def poll(self):
         """Wait for packets to send to the client."""
         queue_empty = self.server.get_queue_empty_exception()
@@ -119,7 +125,8 @@ class Socket(base_socket.BaseSocket):
 
     def close(self, wait=True, abort=False, reason=None):
         """Close the socket connection."""
-        if not self.closed and not self.closing:
+        if not self.closed and not self.closing and \
+                self._close_lock.acquire(blocking=False):
             self.closing = True
             self.server._trigger_event(
                 'disconnect', self.sid,
